@@ -225,6 +225,151 @@ fn check_user_generator() -> Vec<(String, String)> {
     out
 }
 
+
+// ---------------------------------------------------------------------------------------------
+// 2b. components that break ties, and log exports that overlap in time
+// ---------------------------------------------------------------------------------------------
+
+/// The elitist archive on populations with many tied objective values (different solutions), the archive overflowing at a tie:
+/// repeated executions from the same seed give the same archive.
+fn check_archive_determinism() -> Vec<(String, String)> {
+    use crate::subject::prep::{rd_tpop, state_with, tpop, TInd};
+    use mahf::components::archive::{ElitistArchive, ElitistArchiveUpdate};
+    let mut out = vec![];
+    let pops: Vec<Vec<Vec<TInd>>> = vec![
+        vec![vec![(0, 1.0), (1, 1.0), (2, 1.0), (3, 0.5)]],
+        vec![vec![(0, 2.0), (1, 1.0)], vec![(2, 1.0), (3, 1.0), (4, 2.0)]],
+        vec![(0..12).map(|i| (i as u32, (i % 3) as f64)).collect()],
+    ];
+    for seq in &pops {
+        for k in 1..=4usize {
+            let run = || -> Result<Vec<(u32, Option<f64>)>, String> {
+                let mut st = state_with::<TagP>(vec![vec![]]);
+                st.insert(Random::new(7));
+                let upd = ElitistArchiveUpdate::new::<TagP>(k);
+                upd.init(&TagP, &mut st).map_err(|e| format!("{:#}", e))?;
+                for p in seq {
+                    *st.populations_mut().current_mut() = tpop(p);
+                    upd.execute(&TagP, &mut st).map_err(|e| format!("{:#}", e))?;
+                }
+                let a = st.borrow::<ElitistArchive<TagP>>();
+                Ok(rd_tpop(a.elitists()))
+            };
+            let first = crate::engine::util::catch(run);
+            for rep in 1..12 {
+                let again = crate::engine::util::catch(run);
+                if again != first {
+                    out.push((
+                        "C08 component=ElitistArchiveUpdate same-seed-different-result".to_string(),
+                        format!("capacity {}, shown populations {:?}, generator Random::new(7): execution 0 left the archive {:?}, execution {} left {:?}", k, seq, first, rep, again),
+                    ));
+                    break;
+                }
+            }
+        }
+    }
+    out
+}
+
+struct Rendezvous {
+    state: Mutex<(usize, usize)>,
+    cv: std::sync::Condvar,
+}
+impl Rendezvous {
+    fn arrive_and_wait(&self) {
+        let mut s = self.state.lock().unwrap();
+        s.0 += 1;
+        if s.0 == 2 {
+            s.0 = 0;
+            s.1 += 1;
+            self.cv.notify_all();
+            return;
+        }
+        let gen = s.1;
+        let (mut s, t) = self.cv.wait_timeout_while(s, std::time::Duration::from_secs(3), |x| x.1 == gen).unwrap();
+        if t.timed_out() {
+            s.0 = s.0.saturating_sub(1);
+        }
+    }
+}
+struct GatedValue {
+    gate: Arc<Rendezvous>,
+    marker: String,
+}
+impl Serialize for GatedValue {
+    fn serialize<S: serde::Serializer>(&self, s: S) -> Result<S::Ok, S::Error> {
+        // only written once the other log is being written as well
+        self.gate.arrive_and_wait();
+        s.serialize_str(&self.marker)
+    }
+}
+#[derive(Clone)]
+struct GatedMarker {
+    gate: Arc<Rendezvous>,
+    marker: String,
+}
+impl mahf::logging::extractor::EntryExtractor<TagP> for GatedMarker {
+    fn extract_entry(&self, _problem: &TagP, _state: &State<TagP>) -> mahf::logging::log::Entry {
+        mahf::logging::log::Entry { name: "marker", value: Box::new(GatedValue { gate: self.gate.clone(), marker: self.marker.clone() }) }
+    }
+}
+
+/// Two runs on plain threads export their logs into the same directory at the same time (each log holds a value whose
+/// serialisation waits until the other log is being written too): both exports succeed and each file holds its own log.
+fn check_overlapping_log_exports(cbor: bool) -> Vec<(String, String)> {
+    let mut out = vec![];
+    let dir = std::env::temp_dir().join(format!("mahf-mc-c08-logs-{}-{}", std::process::id(), if cbor { "cbor" } else { "json" }));
+    let _ = std::fs::remove_dir_all(&dir);
+    if std::fs::create_dir_all(&dir).is_err() {
+        return out;
+    }
+    let gate = Arc::new(Rendezvous { state: Mutex::new((0, 0)), cv: std::sync::Condvar::new() });
+    let results: Vec<Result<String, String>> = std::thread::scope(|sc| {
+        let hs: Vec<_> = (0..2)
+            .map(|i| {
+                let gate = gate.clone();
+                let dir = dir.clone();
+                sc.spawn(move || -> Result<String, String> {
+                    let marker = format!("<run {}>", i);
+                    let config = Configuration::<TagP>::builder().while_(LessThanN::iterations(1), |b| b.do_(Logger::new())).build();
+                    let st = config
+                        .optimize_with(&TagP, |st| {
+                            st.insert(Random::new(i as u64));
+                            st.configure_log(|cfg| {
+                                cfg.with(mahf::conditions::EveryN::iterations(1), Box::new(GatedMarker { gate: gate.clone(), marker: marker.clone() }));
+                                Ok(())
+                            })
+                        })
+                        .map_err(|e| format!("run: {:#}", e))?;
+                    let path = dir.join(format!("log{}.{}", i, if cbor { "cbor" } else { "json" }));
+                    let log = st.log();
+                    let r = if cbor { log.to_cbor(&path) } else { log.to_json(&path) };
+                    r.map_err(|e| format!("export failed: {:#}", e))?;
+                    let bytes = std::fs::read(&path).map_err(|e| format!("exported file unreadable: {}", e))?;
+                    let text = String::from_utf8_lossy(&bytes).to_string();
+                    if !text.contains(&marker) {
+                        return Err(format!("the exported file does not hold this run's log (marker {} missing, {} bytes)", marker, bytes.len()));
+                    }
+                    Ok(marker)
+                })
+            })
+            .collect();
+        hs.into_iter().map(|h| h.join().unwrap_or_else(|_| Err("export thread panicked".to_string()))).collect()
+    });
+    let leftovers: Vec<String> = std::fs::read_dir(&dir).map(|d| d.filter_map(|e| e.ok()).map(|e| e.file_name().to_string_lossy().to_string()).filter(|n| !n.starts_with("log")).collect()).unwrap_or_default();
+    let _ = std::fs::remove_dir_all(&dir);
+    for (i, r) in results.iter().enumerate() {
+        if let Err(e) = r {
+            out.push((format!("C08 log-export overlapping-exports {}", if cbor { "to_cbor" } else { "to_json" }), format!("two runs on plain threads exporting into one directory at the same time: run {}: {}", i, e)));
+            break;
+        }
+    }
+    if out.is_empty() && !leftovers.is_empty() {
+        out.push((format!("C08 log-export overlapping-exports {} leftovers", if cbor { "to_cbor" } else { "to_json" }), format!("files left behind next to the two logs: {:?}", leftovers)));
+    }
+    out
+}
+
 // ---------------------------------------------------------------------------------------------
 // 3. generated configurations with real randomness
 // ---------------------------------------------------------------------------------------------
@@ -669,6 +814,17 @@ pub fn run(rep: &mut Report) {
     for (s, d) in check_user_generator() {
         part.violate(s, d, json!({"kind": "usergen"}));
     }
+    part.transitions += 3 * 4 * 12 + 4;
+    part.traces += 14;
+    part.states += 14;
+    for (s, d) in check_archive_determinism() {
+        part.violate(s, d, json!({"kind": "archive-determinism"}));
+    }
+    for cbor in [false, true] {
+        for (s, d) in check_overlapping_log_exports(cbor) {
+            part.violate(s, d, json!({"kind": "overlapping-exports", "cbor": cbor}));
+        }
+    }
     part.sample(json!({"inserted": "Random::with_rng::<ScriptedRng>(4242)", "expected_after_run": "same backend, seed 4242, words drawn > 0"}));
     rep.push(part);
 
@@ -863,6 +1019,8 @@ pub fn replay(case: &Value) -> Result<Vec<(String, String)>, String> {
             Ok(p.violations.into_iter().map(|v| (v.sig, v.detail)).collect())
         }
         "usergen" => Ok(check_user_generator()),
+        "archive-determinism" => Ok(check_archive_determinism()),
+        "overlapping-exports" => Ok(check_overlapping_log_exports(case["cbor"].as_bool().unwrap_or(false))),
         "tree" => {
             let nmax = case["nmax"].as_u64().unwrap_or(4) as usize;
             let trees: Vec<Tree> = shapes(nmax, false).into_iter().filter(|t| size(t) <= nmax).collect();
